@@ -13,13 +13,13 @@ CLAIMS = {
         "technique": "constant-evaluated table dump (clang APValue) compared with independent oracle tables and the ISA database; switch-coverage lint",
     },
     "C02": {
-        "text": "Decides: every register id packed into an AArch64 instruction word is range-validated on all CFG paths before the word is emitted (143 sites, validators derived from callee bodies); every encoding class is dispatched and every row indexes inside the data array its class reads; register field positions, stored opcode constants (806) and register-run checks agree with db/isa_aarch64.json; every 64-bit immediate is range-tested on all paths before it is narrowed to 32 bits (21 sites) and condition-code immediates are bounded by the CondCode enum; lossy operations on 64-bit immediates (masking, templated narrowing) need a dominating bound; the overloads of the register-id validators accept identical id sets (finite predicate folding); assembler lookup tables equal an architectural oracle; general-purpose register widths allowed per row equal the database notation (379 operand positions).; operands are reinterpreted only as the kind the dominating test established; invalid-marker table entries are tested before they are packed; a memory index id is packed only after its register type was tested; the bound of a shift type fits the architectural class of every row of the case; sibling branches range-test the same shape expression alike; the vector arrangements each row's kVO class accepts exist in the database Does not decide immediate/offset field arithmetic.",
+        "text": "Decides: every register id packed into an AArch64 instruction word is range-validated on all CFG paths before the word is emitted (143 sites, validators derived from callee bodies); every encoding class is dispatched and every row indexes inside the data array its class reads; register field positions, stored opcode constants (806) and register-run checks agree with db/isa_aarch64.json; every 64-bit immediate is range-tested on all paths before it is narrowed to 32 bits (21 sites) and condition-code immediates are bounded by the CondCode enum; lossy operations on 64-bit immediates (masking, templated narrowing) need a dominating bound; the overloads of the register-id validators accept identical id sets (finite predicate folding); assembler lookup tables equal an architectural oracle; general-purpose register widths allowed per row equal the database notation (379 operand positions).; operands are reinterpreted only as the kind the dominating test established; invalid-marker table entries are tested before they are packed; a memory index id is packed only after its register type was tested; the bound of a shift type fits the architectural class of every row of the case; sibling branches range-test the same shape expression alike; the vector arrangements each row's kVO class accepts exist in the database; FP scalar/vector shapes accepted by pick_fp_opcode and the shapes stored in exact-signature rows exist in the database; an offset scaled by a data-dependent shift is packed only after a lossless test with the same shift; every packed operand's register type was looked at before the word is emitted; a memory operand's base id becomes a label id only under has_base_label() Does not decide immediate/offset field arithmetic.",
         "design_ref": "DESIGN.md section 3 / C02",
         "note": _TB,
         "technique": "must/may forward dataflow over clang CFG (validate-before-emit), switch coverage, table-vs-database agreement",
     },
     "C03": {
-        "text": "Decides bookkeeping/ordering clauses: label ids validated on the taken edge before label entries are dereferenced; the unresolved counter is written only in its inverse-pair forms and subtracted on every exit that ran the fixup iterator; one iterator advance per iteration and release only after a successful patch; survivor splice; OffsetFormat literals satisfy the encoder's preconditions; pc-relative addends account for trailing immediates and use the writer cursor; a label relocation takes offset and section from the same label entry; the displacement codec never narrows a 64-bit displacement without a range or round-trip test.; a reference from another section takes its target section from the label; a fixup list is attached to a label entry only on the edge where it is not bound; bind_label resolves fix-ups against the bound section; a label distance reaches a narrower field only under a dominating range predicate Does not decide displacement values.",
+        "text": "Decides bookkeeping/ordering clauses: label ids validated on the taken edge before label entries are dereferenced; the unresolved counter is written only in its inverse-pair forms and subtracted on every exit that ran the fixup iterator; one iterator advance per iteration and release only after a successful patch; survivor splice; OffsetFormat literals satisfy the encoder's preconditions; pc-relative addends account for trailing immediates and use the writer cursor; a label relocation takes offset and section from the same label entry; the displacement codec never narrows a 64-bit displacement without a range or round-trip test.; a reference from another section takes its target section from the label; a fixup list is attached to a label entry only on the edge where it is not bound; bind_label resolves fix-ups against the bound section; a label distance reaches a narrower field only under a dominating range predicate; a64: a memory operand's base id becomes a label id only under has_base_label() Does not decide displacement values.",
         "design_ref": "DESIGN.md section 3 / C03",
         "note": _TB,
         "technique": "dominance / must-pass-through dataflow on CFG, inverse-pair structural rule, constant-argument checks",
@@ -40,7 +40,7 @@ CLAIMS = {
         "technique": "AST extraction of constant setter arguments per (arch branch, convention case) compared with an ABI oracle table",
     },
     "C08": {
-        "text": "Decides capture/replay coverage: every node-creating Builder override is replayed by serialize_to and every node kind dispatched; options/extra register/comment are restored from the node before _emit, operands passed positionally and operands 3..5 refreshed per node; _emit stores everything in the node; the five list-editing functions agree on links, list ends, cursor and dirty flag. The arguments of embed_label / embed_label_delta round-trip positionally through node constructor, field and accessor; the cursor is tested once per removed node on every path; element sizes are computed from the de-abstracted type id in Builder and Assembler alike. The section chain is terminated after re-linking; x86/a64 Compiler/Builder finalize forward the same emitter configuration; a node taken from a label/section/const-pool registry is linked only when known inactive or one-shot. Does not decide byte identity.",
+        "text": "Decides capture/replay coverage: every node-creating Builder override is replayed by serialize_to and every node kind dispatched; options/extra register/comment are restored from the node before _emit, operands passed positionally and operands 3..5 refreshed per node; _emit stores everything in the node; the five list-editing functions agree on links, list ends, cursor and dirty flag. The arguments of embed_label / embed_label_delta round-trip positionally through node constructor, field and accessor; the cursor is tested once per removed node on every path; element sizes are computed from the de-abstracted type id in Builder and Assembler alike. The section chain is terminated after re-linking; x86/a64 Compiler/Builder finalize forward the same emitter configuration; a node taken from a label/section/const-pool registry is linked only when known inactive or one-shot. A function that binds its label does so before every successful return; the one-shot state is not read after _grab_state(); serialize_to masks op[0..2] by op_count and takes op_ext from a per-node scratch array; Builder interface functions fail with error codes the Assembler's versions also use. Does not decide byte identity.",
         "design_ref": "DESIGN.md section 3 / C08",
         "note": _TB,
         "technique": "call-graph coverage, argument provenance tracing, structural pairing of link assignments",
@@ -77,19 +77,19 @@ CLAIMS = {
     "C13": {
         "text": "Decides clauses C13.a-c: signature/name tables regenerate identically, the packed name index satisfies the binary-search "
                 "preconditions for every id (exhaustive), the validation hook precedes any buffer commit and its failure reaches the error exit; the a64 name scan decodes every id; the x86 validator "
-                "adds the vm flags that match the index register type.; AArch64 vector arrangements accepted per row exist in the database and the database's arrangement lists agree with the Q bit of their opcode; the x86 validator rejects {z} with a memory destination Does not decide per-form acceptance agreement.",
+                "adds the vm flags that match the index register type.; AArch64 vector arrangements accepted per row exist in the database and the database's arrangement lists agree with the Q bit of their opcode; the x86 validator rejects {z} with a memory destination; FP and exact-signature shapes as in C02; each x86 emitter selects the validator by mode inside on_attach; the validator gives a vector-index operand no plain memory flag, compares implicit registers for every operand class that has them, and its per-mode base/index register sets equal the architecture Does not decide per-form acceptance agreement.",
         "design_ref": "DESIGN.md section 3 / C13",
         "note": _TB,
         "technique": "regeneration diff, exhaustive decode of dumped name tables, CFG dominance",
     },
     "C14": {
-        "text": "Decides guard/atomicity clauses: label ids validated before dereference; AArch64 register ids validated before packing; emit functions (x86, a64, Builder) reset one-shot state on every exit, commit bytes only on success, never reach an input-validation exit after a fixup/relocation/address-table commit; the shared failure exit resets state before the handler can throw; AArch64 64-bit immediates are range-tested before narrowing and condition codes are bounded by the enum; label-count comparisons are strict; every failing return of an emitter interface function passes through report_error() (flow-sensitive), one-shot state is reset before the handler runs, a label is validated before the first commit of a multi-step function; constant-table subscripts are bounded for arbitrary operands (38 subscripts, upper-bound evaluator) and the opcode MM field stays inside its table; the CodeHolder is used only after `_code` was tested.; Builder::bind and the other registry-node adders link a node only when it is known not to be part of the list; operand reinterpretation, invalid-marker tables, memory index type, shift-type class and sibling range tests as in C02 Does not decide that every invalid operand kind is rejected, nor operand-indexed table subscripts.",
+        "text": "Decides guard/atomicity clauses: label ids validated before dereference; AArch64 register ids validated before packing; emit functions (x86, a64, Builder) reset one-shot state on every exit, commit bytes only on success, never reach an input-validation exit after a fixup/relocation/address-table commit; the shared failure exit resets state before the handler can throw; AArch64 64-bit immediates are range-tested before narrowing and condition codes are bounded by the enum; label-count comparisons are strict; every failing return of an emitter interface function passes through report_error() (flow-sensitive), one-shot state is reset before the handler runs, a label is validated before the first commit of a multi-step function; constant-table subscripts are bounded for arbitrary operands (38 subscripts, upper-bound evaluator) and the opcode MM field stays inside its table; the CodeHolder is used only after `_code` was tested.; Builder::bind and the other registry-node adders link a node only when it is known not to be part of the list; operand reinterpretation, invalid-marker tables, memory index type, shift-type class and sibling range tests as in C02; lossless-shift, register-type and FP-shape rules as in C02; every non-noexcept Builder/Compiler API function reports its errors Does not decide that every invalid operand kind is rejected, nor operand-indexed table subscripts.",
         "design_ref": "DESIGN.md section 3 / C14",
         "note": _TB,
         "technique": "must-set / reachability dataflow on clang CFG, sibling-guard comparison, index-range vs table-length check",
     },
     "C15": {
-        "text": "Decides: no Error value is dropped outside a reviewed table (223 discards, type-resolved); allocation results are null-tested on the taken edge before use (67 sites); unchecked appends are dominated by a successful reserve on the same container; preconditions established by a helper are established on every path; acquire/release roll-back on every failing exit of six functions (path-sensitive); freed blocks are not left linked; relocation entries are neutralised on failing exits; arena containers are untouched on allocation-failure exits; a failed acquisition's output is never what gets released; a failed attach leaves the emitter detached.; creators never fail with their object stored in a caller's cache slot; ConstPool::add changes nothing before its failing allocation; the RA clean-up unlinks through the container the links were recorded in Does not decide leak freedom as a whole or retry equivalence.",
+        "text": "Decides: no Error value is dropped outside a reviewed table (223 discards, type-resolved); allocation results are null-tested on the taken edge before use (67 sites); unchecked appends are dominated by a successful reserve on the same container; preconditions established by a helper are established on every path; acquire/release roll-back on every failing exit of six functions (path-sensitive); freed blocks are not left linked; relocation entries are neutralised on failing exits; arena containers are untouched on allocation-failure exits; a failed acquisition's output is never what gets released; a failed attach leaves the emitter detached.; creators never fail with their object stored in a caller's cache slot; ConstPool::add changes nothing before its failing allocation; the RA clean-up unlinks through the container the links were recorded in; the RA clean-up resets every node's pass data; allocation wrappers are followed and a discarded creator result is flagged; no failing exit after a label was bound; no container keeps arena storage across an arena reset Does not decide leak freedom as a whole or retry equivalence.",
         "design_ref": "DESIGN.md section 3 / C15",
         "note": _TB,
         "technique": "null-tested must-analysis, discarded-result lint with frozen exception table, dominance, free-escape typestate",
